@@ -213,6 +213,7 @@ Notation rwf_s := (wf_s token tok_class op_level).
 Notation rwf_m := (wf_m token tok_class op_level).
 Notation rerase_s := (erase_s token t_text tok_num).
 Notation rerase_m := (erase_m token t_text tok_num).
+Notation rabs := (absorbs token).
 
 Section StmtInd.
   Variable P : stmt -> Prop.
@@ -257,12 +258,12 @@ Fixpoint rstmt (s : stmt) : Prop :=
       (fix go (l : list (sexpr * list stmt)) : Prop :=
          match l with
          | [] => True
-         | (c0, b0) :: r => (rexpr c0 /\ b0 <> [] /\ all b0) /\ go r
+         | (c0, b0) :: r => (rexpr c0 /\ all b0) /\ go r
          end) eis /\
       all els
-  | TFor _ e1 e2 st body => rexpr e1 /\ rexpr e2 /\ match st with Some e3 => rexpr e3 | None => True end /\ body <> [] /\ all body
-  | TWhile c body => rexpr c /\ body <> [] /\ all body
-  | TRepeat body c => rexpr c /\ body <> [] /\ all body
+  | TFor _ e1 e2 st body => rexpr e1 /\ rexpr e2 /\ match st with Some e3 => rexpr e3 | None => True end /\ all body
+  | TWhile c body => rexpr c /\ all body
+  | TRepeat body c => rexpr c /\ all body
   | TExit | TReturn => True
   end.
 Fixpoint rall (l : list stmt) : Prop := match l with [] => True | x :: r => rstmt x /\ rall r end.
@@ -282,6 +283,8 @@ Lemma sgap_triv s : rtriv (sgap s).
 Proof. unfold sgap. destruct (sends token s); [apply nil_triv | apply ws1_triv]. Qed.
 Lemma sgap_nil s : sends token s = true -> sgap s = [].
 Proof. unfold sgap. intros ->. reflexivity. Qed.
+Lemma tail_gap_triv l : rtriv (tail_gap l).
+Proof. destruct l; [apply nil_triv | apply nl1_triv]. Qed.
 
 Lemma more_of_nil f prev : more_of f prev [] = (MNil token, sgap prev).
 Proof. reflexivity. Qed.
@@ -306,18 +309,23 @@ Proof.
 Qed.
 
 Lemma list_sp_spec x l : stmt_good x -> Forall stmt_good l ->
-  rwf_l (list_sp ss_of x l) /\ rerase_l (list_sp ss_of x l) = x :: l.
+  rwf_l (list_sp ss_of x l) /\ rerase_l (list_sp ss_of x l) = x :: l /\ rabs (list_sp ss_of x l) = false.
 Proof.
   intros (Wx & Ex) Hl. unfold list_sp. pose proof (more_of_spec l (ss_of x) Hl) as S.
   destruct (more_of ss_of (ss_of x) l) as [m w]. destruct S as (W & T & E & Ld).
-  split.
-  - cbn [wf_l]. split; [exact Wx|]. split; [exact W|]. split; [exact T|]. split; [reflexivity | exact Ld].
+  split; [|split; [|reflexivity]].
+  - cbn [wf_l wf_g]. split; [reflexivity|]. split; [exact Wx|]. split; [exact W|]. split; [exact T|]. split; [reflexivity | exact Ld].
   - change (rerase_s (ss_of x) :: rerase_m m = x :: l). rewrite Ex, E. reflexivity.
 Qed.
 
-Lemma body_sp_spec l : l <> [] -> Forall stmt_good l -> rwf_l (body_sp ss_of l) /\ rerase_l (body_sp ss_of l) = l.
+Lemma body_sp_spec l : Forall stmt_good l ->
+  rwf_l (body_sp ss_of l) /\ rerase_l (body_sp ss_of l) = l /\ (rabs (body_sp ss_of l) = true -> tail_gap l = []).
 Proof.
-  destruct l as [|x l]; [intros H; contradiction H; reflexivity|]. intros _ H. inversion H; subst. apply list_sp_spec; assumption.
+  destruct l as [|x l]; intro H.
+  - cbn [body_sp]. split; [|split; [reflexivity | intros _; reflexivity]].
+    cbn [wf_l wf_g]. split; [intros _; reflexivity|]. split; [apply nil_triv|]. split; [reflexivity | apply nl1_triv].
+  - inversion H; subst. cbn [body_sp]. destruct (list_sp_spec x l) as (W & E & A); try assumption.
+    split; [exact W|]. split; [exact E|]. rewrite A. discriminate.
 Qed.
 
 Lemma par_good_of p : rpar p -> par_good p.
@@ -338,30 +346,43 @@ Proof.
   inversion HF; subst. cbn [rall] in HR. destruct HR as [R1 R2]. constructor; [apply HP; assumption | apply IH; assumption].
 Qed.
 
-Lemma eis_sp_nil f : eis_sp f [] = EINil token.
+Lemma eis_sp_nil f lead : eis_sp f lead [] = EINil token.
 Proof. reflexivity. Qed.
-Lemma eis_sp_cons f c b l : eis_sp f ((c, b) :: l) =
-  EICons token nl1 (kwt KElsif) ws1 (sp_of c) (gap (sp_of c)) (kwt KThen) nl1 (body_sp f b) (eis_sp f l).
+Lemma eis_sp_cons f lead c b l : eis_sp f lead ((c, b) :: l) =
+  EICons token lead (kwt KElsif) ws1 (sp_of c) (gap (sp_of c)) (kwt KThen) nl1 (body_sp f b) (eis_sp f (tail_gap b) l).
 Proof. reflexivity. Qed.
 
 Definition eis_cond (l : list (sexpr * list stmt)) : Prop :=
   (fix go (l : list (sexpr * list stmt)) : Prop :=
      match l with
      | [] => True
-     | (c0, b0) :: r => (rexpr c0 /\ b0 <> [] /\ rall b0) /\ go r
+     | (c0, b0) :: r => (rexpr c0 /\ rall b0) /\ go r
      end) l.
 
-Lemma eis_sp_spec l : eis_cond l -> Forall (fun cb : sexpr * list stmt => Forall stmt_good (snd cb)) l ->
-  wf_eis token tok_class op_level (eis_sp ss_of l) /\ erase_eis token t_text tok_num (eis_sp ss_of l) = l.
+Lemma last_gap_triv l : rtriv (last_gap l).
 Proof.
-  induction l as [|[c b] l IH]; intros HC HG.
+  induction l as [|[c b] l IH]; [apply nl1_triv|]. destruct l as [|cb l']; [apply tail_gap_triv | exact IH].
+Qed.
+
+Lemma eis_sp_spec : forall l lead wt, rtriv lead -> eis_cond l ->
+  Forall (fun cb : sexpr * list stmt => Forall stmt_good (snd cb)) l ->
+  (l <> [] -> last_gap l = [] -> wt = []) ->
+  wf_eis token tok_class op_level wt (eis_sp ss_of lead l) /\ erase_eis token t_text tok_num (eis_sp ss_of lead l) = l.
+Proof.
+  induction l as [|[c b] l IH]; intros lead wt Hlead HC HG Hwt.
   - rewrite eis_sp_nil. split; [exact I | reflexivity].
-  - cbn [eis_cond] in HC. destruct HC as ((Rc & Nb & _) & HC'). inversion HG as [|cb l' Gb Gl]; subst. cbn [snd] in Gb.
-    destruct (IH HC' Gl) as (W & E). destruct (sp_of_spec c Rc 0) as (Wc & Ec). destruct (body_sp_spec b Nb Gb) as (Wb & Eb).
+  - cbn [eis_cond] in HC. destruct HC as ((Rc & _) & HC'). inversion HG as [|cb l' Gb Gl]; subst. cbn [snd] in Gb.
+    destruct (sp_of_spec c Rc 0) as (Wc & Ec). destruct (body_sp_spec b Gb) as (Wb & Eb & Ab).
+    assert (Hwt' : l <> [] -> last_gap l = [] -> wt = []).
+    { intros Hn Hg. apply Hwt; [discriminate|]. destruct l as [|cb l']; [contradiction Hn; reflexivity | exact Hg]. }
+    destruct (IH (tail_gap b) wt (tail_gap_triv b) HC' Gl Hwt') as (W & E).
     rewrite eis_sp_cons. split.
-    + cbn [wf_eis]. split; [apply nl1_triv|]. split; [reflexivity|]. split; [apply ws1_triv|]. split; [exact Wc|].
-      split; [apply gap_triv|]. split; [apply gap_nil|]. split; [reflexivity|]. split; [apply nl1_triv|]. split; [exact Wb | exact W].
-    + change ((rerase (sp_of c), rerase_l (body_sp ss_of b)) :: erase_eis token t_text tok_num (eis_sp ss_of l) = (c, b) :: l).
+    + cbn [wf_eis]. split; [exact Hlead|]. split; [reflexivity|]. split; [apply ws1_triv|]. split; [exact Wc|].
+      split; [apply gap_triv|]. split; [apply gap_nil|]. split; [reflexivity|]. split; [apply nl1_triv|]. split; [exact Wb|]. split; [exact W|].
+      intro Ha. specialize (Ab Ha). destruct l as [|[c1 b1] l1].
+      * rewrite eis_sp_nil. cbn [eis_lead]. apply Hwt; [discriminate|]. cbn [last_gap]. exact Ab.
+      * rewrite eis_sp_cons. cbn [eis_lead]. exact Ab.
+    + change ((rerase (sp_of c), rerase_l (body_sp ss_of b)) :: erase_eis token t_text tok_num (eis_sp ss_of (tail_gap b) l) = (c, b) :: l).
       rewrite Ec, Eb, E. reflexivity.
 Qed.
 
@@ -394,39 +415,51 @@ Proof.
     assert (Gl : Forall stmt_good els) by (apply (goods _ els (fun s H => H) IHl Rl)).
     assert (Ge : Forall (fun cb : sexpr * list stmt => Forall stmt_good (snd cb)) eis).
     { clear -IHe Re. induction eis as [|[c0 b0] r IH]; [constructor|]. inversion IHe; subst. cbn [eis_cond] in Re.
-      destruct Re as ((_ & _ & Rb0) & Rr). constructor; [|apply IH; assumption].
+      destruct Re as ((_ & Rb0) & Rr). constructor; [|apply IH; assumption].
       cbn [snd] in *. apply (goods _ b0 (fun s H => H)); assumption. }
-    destruct (eis_sp_spec eis Re Ge) as (We & Ee).
-    cbn [ss_of]. split.
+    set (el := match els with [] => ENone token | x :: l' => ESome token (last_gap eis) (kwt KElse) nl1 (list_sp ss_of x l') end).
+    set (w4 := match els with [] => last_gap eis | _ :: _ => nl1 end).
+    assert (Hwt : el_lead token el w4 = last_gap eis) by (unfold el, w4; destruct els; reflexivity).
+    destruct (eis_sp_spec eis nl1 (el_lead token el w4) nl1_triv Re Ge) as (We & Ee).
+    { intros _ Hg. rewrite Hwt. exact Hg. }
+    assert (Hw4 : rtriv w4) by (unfold w4; destruct els; [apply last_gap_triv | apply nl1_triv]).
+    assert (Wel : wf_el token tok_class op_level w4 el /\ erase_el token t_text tok_num el = els).
+    { unfold el. destruct els as [|x l']; [split; [exact I | reflexivity]|].
+      destruct (list_sp_spec x l' (Forall_inv Gl) (Forall_inv_tail Gl)) as (W & E & A). split; [|exact E].
+      cbn [wf_el]. split; [apply last_gap_triv|]. split; [reflexivity|]. split; [apply nl1_triv|]. split; [exact W|]. rewrite A. discriminate. }
+    destruct Wel as (Wel & Eel).
+    assert (Wb : wf_b token tok_class op_level (match body with [] => BNone token | x :: l' => BSome token (list_sp ss_of x l') end) /\
+                 erase_b token t_text tok_num (match body with [] => BNone token | x :: l' => BSome token (list_sp ss_of x l') end) = body /\
+                 babsorbs token (match body with [] => BNone token | x :: l' => BSome token (list_sp ss_of x l') end) = false).
+    { destruct body as [|x l']; [repeat split|].
+      destruct (list_sp_spec x l' (Forall_inv Gb) (Forall_inv_tail Gb)) as (W & E & A).
+      split; [exact W|]. split; [exact E | exact A]. }
+    destruct Wb as (Wb & Eb & Ab).
+    change (ss_of (TIf c body eis els)) with
+      (SsIf token (kwt KIf) ws1 (sp_of c) (gap (sp_of c)) (kwt KThen) nl1
+         (match body with [] => BNone token | x :: l' => BSome token (list_sp ss_of x l') end) (eis_sp ss_of nl1 eis) el w4 (kwt KEndIf)).
+    split.
     + cbn [wf_s]. split; [reflexivity|]. split; [apply ws1_triv|]. split; [exact Wc|]. split; [apply gap_triv|].
-      split; [apply gap_nil|]. split; [reflexivity|]. split; [apply nl1_triv|].
-      split; [destruct body as [|x l']; [exact I|]; inversion Gb; subst; apply list_sp_spec; assumption|].
-      split; [exact We|].
-      split; [destruct els as [|x l']; [exact I|]; inversion Gl; subst; cbn [wf_el];
-              split; [apply nl1_triv|]; split; [reflexivity|]; split; [apply nl1_triv|]; apply list_sp_spec; assumption|].
-      split; [apply nl1_triv | reflexivity].
-    + assert (Eb : erase_b token t_text tok_num (match body with [] => BNone token | x :: l' => BSome token (list_sp ss_of x l') end) = body).
-      { destruct body as [|x l']; [reflexivity|]. inversion Gb; subst. cbn [erase_b]. apply list_sp_spec; assumption. }
-      assert (El : erase_el token t_text tok_num (match els with [] => ENone token | x :: l' => ESome token nl1 (kwt KElse) nl1 (list_sp ss_of x l') end) = els).
-      { destruct els as [|x l']; [reflexivity|]. inversion Gl; subst. cbn [erase_el]. apply list_sp_spec; assumption. }
-      change (TIf (rerase (sp_of c))
+      split; [apply gap_nil|]. split; [reflexivity|]. split; [apply nl1_triv|]. split; [exact Wb|]. split; [exact We|]. split; [exact Wel|].
+      split; [exact Hw4|]. split; [reflexivity|]. intro Hb.
+      change (babsorbs token (match body with [] => BNone token | x :: l' => BSome token (list_sp ss_of x l') end) = true) in Hb.
+      rewrite Ab in Hb. discriminate Hb.
+    + change (TIf (rerase (sp_of c))
                 (erase_b token t_text tok_num (match body with [] => BNone token | x :: l' => BSome token (list_sp ss_of x l') end))
-                (erase_eis token t_text tok_num (eis_sp ss_of eis))
-                (erase_el token t_text tok_num (match els with [] => ENone token | x :: l' => ESome token nl1 (kwt KElse) nl1 (list_sp ss_of x l') end))
-              = TIf c body eis els).
-      rewrite Ec, Eb, Ee, El. reflexivity.
+                (erase_eis token t_text tok_num (eis_sp ss_of nl1 eis)) (erase_el token t_text tok_num el) = TIf c body eis els).
+      rewrite Ec, Eb, Ee, Eel. reflexivity.
   - (* FOR *)
-    cbn [rstmt] in R. destruct R as (R1 & R2 & R3 & Nb & Rb). change (rall body) in Rb.
+    cbn [rstmt] in R. destruct R as (R1 & R2 & R3 & Rb). change (rall body) in Rb.
     destruct (sp_of_spec e1 R1 0) as (W1 & E1). destruct (sp_of_spec e2 R2 0) as (W2 & E2).
     assert (Gb : Forall stmt_good body) by (apply (goods _ body (fun s H => H) IHb Rb)).
-    destruct (body_sp_spec body Nb Gb) as (Wb & Eb).
+    destruct (body_sp_spec body Gb) as (Wb & Eb & Ab).
     cbn [ss_of]. split.
     + cbn [wf_s]. split; [reflexivity|]. split; [apply ws1_triv|]. split; [reflexivity|]. split; [apply ws1_triv|].
       split; [reflexivity|]. split; [apply ws1_triv|]. split; [exact W1|]. split; [apply gap_triv|]. split; [apply gap_nil|].
       split; [reflexivity|]. split; [apply ws1_triv|]. split; [exact W2|]. split; [apply gap_triv|]. split; [apply gap_nil|].
       split; [destruct st as [e3|]; [|exact I]; destruct (sp_of_spec e3 R3 0) as (W3 & _); cbn [wf_by];
               split; [reflexivity|]; split; [apply ws1_triv|]; split; [exact W3|]; split; [apply gap_triv | apply gap_nil]|].
-      split; [reflexivity|]. split; [apply nl1_triv|]. split; [exact Wb|]. split; [apply nl1_triv | reflexivity].
+      split; [reflexivity|]. split; [apply nl1_triv|]. split; [exact Wb|]. split; [apply tail_gap_triv|]. split; [reflexivity | exact Ab].
     + assert (Es : erase_by token t_text tok_num (match st with None => ByNone token | Some e3 => BySome token (kwt KBy) ws1 (sp_of e3) (gap (sp_of e3)) end) = st).
       { destruct st as [e3|]; [|reflexivity]. destruct (sp_of_spec e3 R3 0) as (_ & E3). cbn [erase_by]. rewrite E3. reflexivity. }
       change (TFor (t_text (id_tok v)) (rerase (sp_of e1)) (rerase (sp_of e2))
@@ -434,41 +467,43 @@ Proof.
                 (rerase_l (body_sp ss_of body)) = TFor v e1 e2 st body).
       rewrite E1, E2, Es, Eb. reflexivity.
   - (* WHILE *)
-    cbn [rstmt] in R. destruct R as (Rc & Nb & Rb). change (rall body) in Rb.
+    cbn [rstmt] in R. destruct R as (Rc & Rb). change (rall body) in Rb.
     destruct (sp_of_spec c Rc 0) as (Wc & Ec).
     assert (Gb : Forall stmt_good body) by (apply (goods _ body (fun s H => H) IHb Rb)).
-    destruct (body_sp_spec body Nb Gb) as (Wb & Eb).
+    destruct (body_sp_spec body Gb) as (Wb & Eb & Ab).
     cbn [ss_of]. split.
     + cbn [wf_s]. split; [reflexivity|]. split; [apply ws1_triv|]. split; [exact Wc|]. split; [apply gap_triv|]. split; [apply gap_nil|].
-      split; [reflexivity|]. split; [apply nl1_triv|]. split; [exact Wb|]. split; [apply nl1_triv | reflexivity].
+      split; [reflexivity|]. split; [apply nl1_triv|]. split; [exact Wb|]. split; [apply tail_gap_triv|]. split; [reflexivity | exact Ab].
     + change (TWhile (rerase (sp_of c)) (rerase_l (body_sp ss_of body)) = TWhile c body). rewrite Ec, Eb. reflexivity.
   - (* REPEAT *)
-    cbn [rstmt] in R. destruct R as (Rc & Nb & Rb). change (rall body) in Rb.
+    cbn [rstmt] in R. destruct R as (Rc & Rb). change (rall body) in Rb.
     destruct (sp_of_spec c Rc 0) as (Wc & Ec).
     assert (Gb : Forall stmt_good body) by (apply (goods _ body (fun s H => H) IHb Rb)).
-    destruct (body_sp_spec body Nb Gb) as (Wb & Eb).
+    destruct (body_sp_spec body Gb) as (Wb & Eb & Ab).
     cbn [ss_of]. split.
-    + cbn [wf_s]. split; [reflexivity|]. split; [apply nl1_triv|]. split; [exact Wb|]. split; [apply nl1_triv|]. split; [reflexivity|].
-      split; [apply ws1_triv|]. split; [exact Wc|]. split; [apply gap_triv|]. split; [apply gap_nil | reflexivity].
+    + cbn [wf_s]. split; [reflexivity|]. split; [apply nl1_triv|]. split; [exact Wb|]. split; [apply tail_gap_triv|]. split; [reflexivity|].
+      split; [apply ws1_triv|]. split; [exact Wc|]. split; [apply gap_triv|]. split; [apply gap_nil|]. split; [reflexivity | exact Ab].
     + change (TRepeat (rerase_l (body_sp ss_of body)) (rerase (sp_of c)) = TRepeat body c). rewrite Ec, Eb. reflexivity.
   - split; reflexivity.
   - split; reflexivity.
 Qed.
 
 (* ---- render, then parse ---- *)
-Theorem render_is_spelling : forall l, l <> [] -> Forall rstmt l ->
-  rwf_l (body_sp ss_of l) /\ rerase_l (body_sp ss_of l) = l.
+Theorem render_is_spelling : forall x l, Forall rstmt (x :: l) ->
+  rwf_l (list_sp ss_of x l) /\ rerase_l (list_sp ss_of x l) = x :: l /\ rabs (list_sp ss_of x l) = false.
 Proof.
-  intros l Hn Hl. apply body_sp_spec; [exact Hn|]. eapply Forall_impl; [apply ss_of_spec | exact Hl].
+  intros x l Hl. inversion Hl; subst. apply list_sp_spec; [apply ss_of_spec; assumption|].
+  eapply Forall_impl; [apply ss_of_spec | assumption].
 Qed.
 
 Theorem parse_render_list : forall l rest L, l <> [] -> Forall rstmt l ->
-  closer_next token tok_class rest -> size_l token (body_sp ss_of l) <= L ->
+  closer_next token tok_class rest ->
+  match l with x :: l' => size_l token (list_sp ss_of x l') <= L | [] => True end ->
   plist token tok_class t_text tok_num op_level L (render_list l ++ rest) = Ok (l, rest).
 Proof.
-  intros l rest L Hn Hl Hrest HL. destruct (render_is_spelling l Hn Hl) as (W & E).
-  unfold render_list. destruct l as [|x l0]; [contradiction Hn; reflexivity|].
-  rewrite (plist_real _ rest L W Hrest HL). rewrite E. reflexivity.
+  intros l rest L Hn Hl Hrest HL. destruct l as [|x l0]; [contradiction Hn; reflexivity|].
+  destruct (render_is_spelling x l0 Hl) as (W & E & A).
+  unfold render_list. rewrite (plist_real _ rest L W Hrest); [rewrite E; reflexivity | rewrite A; discriminate | exact HL].
 Qed.
 
 (* the rendered function block body, through the entry point *)
@@ -478,11 +513,13 @@ Definition render_fb (name : text) (l : list stmt) : list token :=
 Theorem parse_render_fb : forall name l, l <> [] -> Forall rstmt l ->
   parse_fb_tokens (render_fb name l) = OParsed l.
 Proof.
-  intros name l Hn Hl. destruct (render_is_spelling l Hn Hl) as (W & E).
-  unfold render_fb, render_list in *. destruct l as [|x l0]; [contradiction Hn; reflexivity|].
-  pose proof (parse_fb_spelled [] (kwt KFunctionBlock) ws1 (id_tok name) nl1 (body_sp ss_of (x :: l0)) nl1 (kwt KEndFunctionBlock) nl1) as P.
+  intros name l Hn Hl. destruct l as [|x l0]; [contradiction Hn; reflexivity|].
+  destruct (render_is_spelling x l0 Hl) as (W & E & A).
+  unfold render_fb, render_list in *.
+  pose proof (parse_fb_spelled [] (kwt KFunctionBlock) ws1 (id_tok name) nl1 (list_sp ss_of x l0) nl1 (kwt KEndFunctionBlock) nl1) as P.
   cbn [app] in P. rewrite P; try reflexivity; try apply ws1_triv; try apply nl1_triv; try apply nil_triv; try assumption.
-  rewrite E. reflexivity.
+  - rewrite E. reflexivity.
+  - rewrite A. discriminate.
 Qed.
 
 (* rendering what was read gives the same tokens again: a fixed point after one round *)
@@ -496,12 +533,13 @@ Theorem render_negative_constant_refuted :
   parse_fb_tokens (render_fb [102%N] neg_witness) <> OParsed neg_witness.
 Proof. vm_compute. discriminate. Qed.
 
-(* the premises hold for a concrete, non-trivial list *)
+(* the premises hold for a concrete, non-trivial list (with an empty loop body and an empty ELSIF body) *)
 Definition ex_stmts : list stmt :=
   [TIf (XBin BLt (XAtom (LfName [97%N])) (XAtom (LfInt false 10%N)))
        [TAssign [120%N] (XBin BAdd (XAtom (LfName [120%N])) (XCall [102%N] [PPos (XAtom (LfBool true)); PNamed [110%N] (XUn UNeg (XAtom (LfName [98%N])))]))]
-       [(XAtom (LfName [99%N]), [TExit])] [TReturn];
-   TWhile (XAtom (LfBool false)) [TCall [103%N] [POut true [111%N] [118%N]]]].
+       [(XAtom (LfName [99%N]), [TExit]); (XAtom (LfName [100%N]), [])] [TReturn];
+   TWhile (XAtom (LfBool false)) [];
+   TRepeat [TCall [103%N] [POut true [111%N] [118%N]]] (XAtom (LfName [97%N]))].
 Example ex_renderable : Forall rstmt ex_stmts /\ ex_stmts <> [].
 Proof.
   split; [|discriminate].
